@@ -446,6 +446,15 @@ class Interp:
                     'std::unordered_map::' if isinstance(o_, dict) and not isinstance(o_, Obj) else 'std::basic_string::' if isinstance(o_, (bytes, bytearray)) else None)
             if pref is not None:
                 return self.std_model(fn, dict(n, cs=pref + last, callee=pref + last, _typed=True), env)
+        if k == 'CXXMemberCallExpr' and 'obj' in n and cs.startswith('std::array::') and last in ('at', 'operator[]', 'size') :
+            o_ = self.eval(fn, S[n['obj']], env)
+            if isinstance(o_, (list, tuple)):
+                if last == 'size':
+                    return len(o_)
+                i_ = self.eval(fn, S[n['args'][0]], env)
+                if isinstance(i_, int) and 0 <= i_ < len(o_):
+                    return o_[i_]
+                raise OutOfFragment('array index %r out of range (size %d) at %s' % (i_, len(o_), fn.loc(n)))
         if k == 'CXXMemberCallExpr' and 'obj' in n and cs.startswith(('std::vector::', 'std::__shared_ptr::', 'std::shared_ptr::', 'std::unique_ptr::', 'std::basic_string::', 'std::__cxx11::basic_string::', 'std::basic_string_view::')):
             if cs.startswith(('std::__shared_ptr::', 'std::shared_ptr::', 'std::unique_ptr::')):
                 o = self.eval(fn, S[n['obj']], env)
